@@ -817,7 +817,7 @@ CHECKS = {
         "quick": "exact: every element-wise operation of C01/C02/C03/C06/C07/C08 (about 960 operation/type instances), subject tuples from a 13-symbol boundary alphabet per operand (64 / 8^2 / 5^3 tuples), every lane, companions = each alphabet symbol in all other lanes + a rotation of all symbols; elementary functions: about 500 subject values (switch-point windows, specials, binade edges, gamma poles) x every lane x 32 companion classes chosen on both sides of every any()/all() threshold plus NaN/inf/huge/tiny; all 22 architectures",
         "thorough": "exact: the full 13^2 / 8^3 subject products; elementary functions: about 6000 subject values (+-8-ulp switch-point windows, every float binade / every 8th double binade, k/2 up to 180); otherwise as quick"}),
     "C14": MathCheck("float,double", RULE_MATH + "; for C14 the judged quantity is the number of iterations of the data-dependent loops of one call (hook XSIMD_VERIF_LOOP_TICK) against the frozen constants of DESIGN.md 8.3, a call is aborted and reported after 1000 iterations, and a watchdog reports any kernel call that does not return within 30 s", {
-        "quick": "the C10 and C11 quick argument spaces of every elementary function, both stream orders (so that lanes of very different magnitude share a batch), all 22 architectures",
+        "quick": "the C10 and C11 quick argument spaces of every elementary function, both stream orders (so that lanes of very different magnitude share a batch); pow(x, n) for 40 exponents n (0, +-1, small, 2^k -+ 1, the extremes of the type, their neighbours and halves) of int16/32/64 and uint16/32/64 x 24 values of x; all 22 architectures",
         "thorough": "the quick spaces on all 22 architectures in both stream orders, plus all 2^32 float32 arguments of every unary function on the 9 kernel-distinct architectures (see C10; both stream orders for the functions that contain hooked loops, lgamma and tgamma), and the C11 thorough lattice"}, extra_args=["--ticks"]),
     "C15": CpuidCheck(),
     "C18": AllocCheck(),
